@@ -67,12 +67,23 @@ MStepF(mm, ss, s, n) ==
            [] n.k = "C" -> R(ended1, <<n>>)                                  \* a pending sample is dropped (pinned)
            [] s = 1     -> R([ss EXCEPT !.last[1] = <<n>>], <<>>)
            [] OTHER     -> IF ss.last[1] # <<>> THEN R([ss EXCEPT !.last[1] = <<>>], ss.last[1]) ELSE R(ss, <<>>)
+    [] mm.op = "WindowWhen" ->
+         \* higher-order output, flattened: N(1000 + j) = window j handed to the observer, I(100 * j + v) = value v delivered to window j,
+         \* IC(j) = window j completed.  The current window is ss.won (1 after subscription).
+         CASE n.k = "N" /\ s = 1 -> R(ss, <<[k |-> "I", v |-> 100 * ss.won + v, c |-> c]>>)
+           [] n.k = "N"           -> R([ss EXCEPT !.won = @ + 1], <<[k |-> "IC", v |-> ss.won, c |-> c], N(1000 + ss.won + 1, c)>>)
+           \* an error or a completion of the source or of the boundary completes the current window, then ends the output (pinned)
+           [] OTHER               -> R(ended1, <<[k |-> "IC", v |-> ss.won, c |-> c], n>>)
     [] mm.op = "ThrottleWhen" ->
          CASE n.k = "E" -> R(ended1, <<n>>)
            [] n.k = "C" -> R(ended1, <<n>>)
            [] s = 1     -> IF ss.flag THEN R([ss EXCEPT !.flag = FALSE], <<n>>) ELSE R(ss, <<>>)
            [] OTHER     -> R([ss EXCEPT !.flag = TRUE], <<>>)
     [] OTHER -> Assert(FALSE, <<"Multi: unknown operator", mm.op>>)
+
+\* what an operator emits when it is subscribed, before its sources are (WindowWhen hands out its first window)
+SubOutF(mm) == IF mm.op = "WindowWhen" THEN <<N(1001, SubCtx)>> ELSE <<>>
+SubStF(mm, ss) == IF mm.op = "WindowWhen" THEN [ss EXCEPT !.won = 1] ELSE ss
 
 HasTerminal(out) == \E j \in 1..Len(out) : out[j].k \in {"E", "C"}
 
